@@ -234,7 +234,8 @@ def analyse(spec, timeout=10, clock=None, want="small", report=False, ref_cap=20
         res["ref_total"] = len(ref)
         res["ref_capped"] = len(ref) >= ref_cap
         k = len(delivered)
-        res["is_prefix"] = delivered == ref[:k]
+        m = min(k, len(ref)) if res["ref_capped"] else k      # a capped reference vouches for its own length only
+        res["is_prefix"] = delivered[:m] == ref[:m] and (res["ref_capped"] or k <= len(ref))
         if not res["is_prefix"]:
             bad = next((i for i, (a, b) in enumerate(zip(delivered, ref)) if a != b), min(k, len(ref)))
             res["first_diff"] = [bad, delivered[bad] if bad < k else None, ref[bad] if bad < len(ref) else None]
